@@ -60,6 +60,7 @@ class Recorder:
         self.name_calls = Counter()
         self.alarms = []
         self.library_calls = 0
+        self.decoy = None
 
     # fast / network flavour -----------------------------------------------------------------
     def fast_builder(self, k, shape, use_library):
@@ -158,7 +159,7 @@ def make_fast_config(rng, allow_empty=False, distinct=True):
     elif r < 0.17:
         names[rng.randrange(T)] = ""                 # so is the empty string
     return {"flavour": rng.choice(["fast", "fast", "network"]), "motifs": [list(m) for m in motifs],
-            "names": names,
+            "names": names, "decoy": rng.random() < 0.25,
             "path": rng.choice(["direct", "main-enum", "main-str", "factory"]), "use_library": rng.random() < 0.7}
 
 
@@ -182,7 +183,7 @@ def make_custom_config(rng, force=None):
         indices.append([col[o] for o in range(len(orbits))])
     return {"flavour": "custom", "motifs": [[list(o), s, n] for o, s, n in motifs], "sizes": sizes, "indices": indices,
             "path": rng.choice(["direct", "main-enum", "main-str", "factory"]), "tuple_result": rng.random() < 0.6,
-            "use_library": rng.random() < 0.5}
+            "use_library": rng.random() < 0.5, "decoy": rng.random() < 0.25}
 
 
 def columns_of(cfg):
@@ -263,6 +264,21 @@ def build_algorithm(cfg, rec):
         else:
             cls, ty = gcmpy.GCMAlgorithmFast, Ty.FAST
     path = cfg["path"]
+    if cfg.get("decoy"):
+        # history: ANOTHER model that differs from this one only in its topology names / naming callbacks (same type, sizes, builder
+        # objects, index lists) is configured first through the same entry point and kept alive
+        dp = dict(params)
+        if cfg["flavour"] == "custom":
+            dp[G.EDGE_NAMES] = [(lambda: "decoy-name") for _ in params[G.EDGE_NAMES]]
+        else:
+            dp[G.EDGE_NAMES] = ["decoy-%d" % i for i in range(len(params[G.EDGE_NAMES]))]
+        if path == "direct":
+            rec.decoy = sut(f"{cls.__name__}(decoy params)", cls, dp)
+        elif path == "factory":
+            rec.decoy = sut("GCMAlgorithmFactory.resolve_algorithm(decoy)", gcmpy.GCMAlgorithmFactory.resolve_algorithm, ty, dp)
+        else:
+            dp[G.GCM_TYPE] = ty if path == "main-enum" else ty.value
+            rec.decoy = sut("GCMAlgorithmMain.load_gcm_algorithm(decoy)", gcmpy.GCMAlgorithmMain.load_gcm_algorithm, dp)
     if path == "direct":
         alg = sut(f"{cls.__name__}(params)", cls, params)
     elif path == "factory":
